@@ -9,8 +9,18 @@ def parsePort (j : J) : Except String Port := do
 
 def parseAct (j : J) : Except String Act := do
   match (← j.asNats) with
-  | [t, p] => pure { ty := t, port := p }
-  | _ => throw "act: [type,port] expected"
+  | [t, p, l] => pure { ty := t, port := p, len := l }
+  | _ => throw "act: [type,port,len] expected"
+
+def parseCtr (j : J) : Except String PortCtr := do
+  match (← j.asNats) with
+  | [n, rp, tp, rb, tb] => pure { no := n, rxPackets := rp, txPackets := tp, rxBytes := rb, txBytes := tb }
+  | _ => throw "port counters: [no,rx_packets,tx_packets,rx_bytes,tx_bytes] expected"
+
+def parsePair (j : J) : Except String (Nat × Nat) := do
+  match (← j.asNats) with
+  | [a, b] => pure (a, b)
+  | _ => throw "pair expected"
 
 def parseActs (j : J) (k : String) : Except String (List Act) := do (← j.array k).mapM parseAct
 
@@ -18,7 +28,7 @@ def parseState (j : J) : Except String SwitchState := do
   pure { dpid := ← j.nat "dpid", maxBuffers := ← j.nat "max_buffers", maxEntries := ← j.nat "max_entries",
          caps := ← j.nat "caps", actionBits := ← j.nat "actions", missSendLen := ← j.nat "miss",
          configFlags := ← j.nat "flags", hasSentHello := false,
-         ports := ← (← j.array "ports").mapM parsePort, portStats := ← j.nats "port_stats",
+         ports := ← (← j.array "ports").mapM parsePort, portStats := ← (← j.array "port_stats").mapM parseCtr,
          table := [], lookupCount := 0, matchedCount := 0, buffers := [] }
 
 def parseStats (j : J) : Except String StatsReq := do
@@ -53,15 +63,30 @@ def parseMsg (j : J) : Except String Msg := do
   else if k = "unhandled" then pure (.unhandled (← j.nat "ty") x)
   else throw s!"unknown message kind {k}"
 
+def parseEvent (j : J) : Except String Event := do
+  let k ← j.string "k"
+  if k = "rejected" then pure (.rejected (← j.nat "xid") (← j.nat "code"))
+  else if k = "bad_version" then pure (.badVersion (← j.nat "xid") (← j.boolean "starting"))
+  else if k = "traffic" then
+    let bufs ← match j.get? "buffers" with
+      | none => pure none
+      | some .null => pure none
+      | some v => do pure (some ((← v.asNats).map (· != 0)))
+    pure (.traffic { ports := ← (← j.array "ports").mapM parseCtr, flows := ← (← j.array "flows").mapM parsePair,
+                     lookupCount := ← j.nat "lookup", matchedCount := ← j.nat "matched", buffers := bufs })
+  else pure (.msg (← parseMsg j))
+
+def ctrJ (c : PortCtr) : J := J.ofNats [c.no, c.rxPackets, c.txPackets, c.rxBytes, c.txBytes]
+
 def portJ (p : Port) : J := J.ofNats [p.no, p.hw, p.config, p.state]
-def flowJ (f : Flow) : J := J.arr [J.ofNat f.priority, J.ofNat f.cookie, J.ofOptNat f.mkey]
+def flowJ (f : Flow) : J := J.arr [J.ofNat f.priority, J.ofNat f.cookie, J.ofOptNat f.mkey, J.ofNat f.packets, J.ofNat f.bytes]
 
 def bodyJ : StatsBody → J
   | .desc => J.mk [("k", J.str "desc")]
   | .flows l => J.mk [("k", J.str "flows"), ("l", J.arr (l.map flowJ))]
-  | .aggregate n => J.mk [("k", J.str "aggregate"), ("n", J.ofNat n)]
+  | .aggregate p b n => J.mk [("k", J.str "aggregate"), ("n", J.ofNat n), ("packets", J.ofNat p), ("bytes", J.ofNat b)]
   | .table m a l h => J.mk [("k", J.str "table"), ("v", J.ofNats [m, a, l, h])]
-  | .ports l => J.mk [("k", J.str "ports"), ("l", J.ofNats l)]
+  | .ports l => J.mk [("k", J.str "ports"), ("l", J.arr (l.map ctrJ))]
   | .queues => J.mk [("k", J.str "queues"), ("n", J.ofNat 0)]
 
 def replyJ : Reply → J
@@ -72,7 +97,8 @@ def replyJ : Reply → J
           ("caps", J.ofNat c), ("acts", J.ofNat a), ("ports", J.arr (ps.map portJ))]
   | .getConfigReply x f m => J.mk [("t", J.str "get_config_reply"), ("xid", J.ofNat x), ("flags", J.ofNat f), ("miss", J.ofNat m)]
   | .barrierReply x => J.mk [("t", J.str "barrier_reply"), ("xid", J.ofNat x)]
-  | .statsReply x t b => J.mk [("t", J.str "stats_reply"), ("xid", J.ofNat x), ("stype", J.ofNat t), ("body", bodyJ b)]
+  | .statsReply x t more b =>
+    J.mk ([("t", J.str "stats_reply"), ("xid", J.ofNat x), ("stype", J.ofNat t), ("body", bodyJ b)] ++ (if more then [("flags", J.ofNat 1)] else []))
   | .queueGetConfigReply x p => J.mk [("t", J.str "queue_get_config_reply"), ("xid", J.ofNat x), ("port", J.ofNat p), ("nq", J.ofNat 0)]
   | .error x t c => J.mk [("t", J.str "error"), ("xid", J.ofNat x), ("etype", J.ofNat t), ("code", J.ofNat c)]
   | .packetIn b => J.mk [("t", J.str "packet_in"), ("bid", J.ofOptNat b)]
@@ -95,8 +121,8 @@ def finalJ (s : SwitchState) : J :=
 /-- request {"state":{…},"msgs":[…]} → {"groups":[{"out":[…]}|{"fail":…},…],"final":{…}} -/
 def handle (j : J) : Except String J := do
   let s ← parseState (← j.get "state")
-  let ms ← (← j.array "msgs").mapM parseMsg
-  let r := runTolerant s ms
+  let ms ← (← j.array "msgs").mapM parseEvent
+  let r := runEvTolerant s ms
   pure (J.mk [("groups", J.arr (r.2.map groupJ)), ("final", finalJ r.1)])
 
 def main : IO Unit := serve handle
